@@ -74,6 +74,10 @@ Definition run_C01 (i : term) : term :=
     end
   else if String.eqb op "driverproto" then
     TL [TS "ok"; frame_view_f (unsourced_file (gss (gn i 2))) (normalize (profile_of (gn i 1)))]
+  else if String.eqb op "gzsame" then
+    (* gzip is a trusted identity layer in the model (parse (gunzip (gzip b)) = parse b): the harness compares
+       what Parse returns for the compressed and the uncompressed serialization of one large profile *)
+    TL [TS "ok"; TS "same"]
   else TL [TS "unknown-op"].
 
 (* the implementation's panic message is not compared *)
@@ -121,6 +125,7 @@ Definition spec_C01 (i o : term) : bool :=
     (* pprof -proto re-read shows the same samples: frames, values, labels *)
     let p := profile_of (gn i 1) in
     if valid_b p && units_wf_b p then term_eqb o (TL [TS "ok"; frame_view (normalize p)]) else true
+  else if String.eqb op "gzsame" then term_eqb o (TL [TS "ok"; TS "same"])
   else true.
 
 Definition cls_C01 (i : term) : list Z :=
